@@ -31,7 +31,7 @@ from simkit.rng import seed_globals  # noqa: E402
 from simkit.world import InvalidScenario, Monitor, Violation, repo_exception_sig, result, run_sim  # noqa: E402
 
 PROPERTY = "C14"
-RUNS = {"quick": 5000, "thorough": 600_000}
+RUNS = {"quick": 5000, "thorough": 2_000_000}
 WALL = {"quick": 90, "thorough": 1500}
 BATCH = {"quick": 50, "thorough": 400}
 SELFTEST_RUNS = 12
